@@ -96,6 +96,16 @@ def gen_cases(rng, tier, h):
                     if ("_eq" in nm or "_ne" in nm or "_less" in nm or "anyLess" in nm) and i % 3 and n % 2 == 0:
                         half = n // 2
                         vals[half:] = vals[:half] if i % 3 == 1 else vals[:1] + vals[half + 1:]
+                        if i % 6 == 4:
+                            # equal operands except for the sign of a zero (IEEE: +0 == -0) ...
+                            k = rng.randrange(half)
+                            vals[:half] = vals[half:]
+                            vals[k], vals[half + k] = 0.0, -0.0
+                        elif i % 6 == 5:
+                            # ... and bitwise identical operands holding a NaN (IEEE: NaN != NaN)
+                            k = rng.randrange(half)
+                            vals[:half] = vals[half:]
+                            vals[k] = vals[half + k] = float("nan")
                     c.append("f " + nm + " " + " ".join(f2h(x) for x in vals))
                 else:
                     vals = _ivals(rng, n)
